@@ -1371,6 +1371,10 @@ def concrete(desc, dims=None):
     fx = _torch_fixture()
     if leaf == "tensor":
         return torch.arange(6, dtype=torch.float64).reshape(2, 3) + i
+    if leaf == "tensor_nonleaf":
+        # result of a differentiable op: requires_grad=True, grad_fn is not None (not a leaf)
+        w = torch.ones(3, dtype=torch.float32, requires_grad=True)
+        return w * 3 + 1 + i
     if leaf == "tensor_grad":
         return torch.ones(3, dtype=torch.float32, requires_grad=True)
     if leaf == "tensor_int":
@@ -1917,12 +1921,16 @@ for _c in C_RSAVES + C_RLOADS + C_SCONTS + C_DCONTS + C_SVALS:
 # ------------------------------------------------------------------------------------------------
 
 G_LEAVES = ["none", "bool", "int", "negint", "bigint", "float", "str", "emptystr", "unistr", "path", "relpath", "npint", "npint8", "npuint16", "npfloat",
-            "npfloat64", "npfloat16", "npbool", "ndarray0", "ndarray1", "ndarray2", "ndarray3", "tensor", "tensor_grad", "tensor_int", "tensor0",
+            "npfloat64", "npfloat16", "npbool", "ndarray0", "ndarray1", "ndarray2", "ndarray3", "tensor", "tensor_grad", "tensor_nonleaf", "tensor_int", "tensor0",
             "tensor_empty", "parameter", "module", "pylogger", "tlogger", "rng:PCG64", "obj", "obj:empty", "inner(c=int,d=ndarray1)"]
 G_EXTRA = ["optimizer", "scheduler", "other", "pycomplex"]
 G_KNOWN_BAD_SAVE = ["npcomplex", "rng:MT19937", "rng:Philox", "rng:SFC64"]
 G_PAIR = ["int", "str", "none", "path", "npfloat", "ndarray1", "tensor", "obj", "list(int,str)"]
 G_SMALL = ["int", "str", "ndarray1"]
+# dict keys / attribute names that start with '.' or contain '.', holding values stored as zarr arrays / sub-groups (hidden files in the store)
+G_DOTNAMES = ["dict(.hid=ndarray1,.h2=list(int,str),.s=str)", "dict(v1.2=ndarray1,a.b.c=tensor,x.=int)", "dict(.x.y=obj,.t=tensor,.d=dict(.k=ndarray1))",
+              "obj(.hid=ndarray1,.cfg=dict(.k=ndarray1,v1.2=tuple(int,str)),v1.2=list(int,str))", "obj(.inner=inner(c=ndarray1),.lst=list(ndarray1,str))",
+              "list(dict(.hid=ndarray1))"]
 G_HASHABLE = ["int", "str", "none", "path", "npfloat", "tuple(int,str)", "bool"]
 
 
@@ -1952,12 +1960,15 @@ def grammar(tier="quick"):
     for T1 in ("list", "tuple", "dict"):
         for inner in ("list(int,int)", "list(int,str)", "tuple(str)", "tuple()", "list()", "dict(a=int)", "dict()", "set(int)", "set()", "dict(a=ndarray1,b=list(int))",
                       "obj(x=int)", "inner(c=list(int,str))", "list(ndarray0)", "list(path,str)", "tuple(none,none)", "list(tensor)", "list(rng:PCG64)",
-                      "list(pylogger)", "list(module)", "dict(a=path)"):
+                      "list(pylogger)", "list(module)", "dict(a=path)",
+                      "list(tensor_nonleaf)", "tuple(tensor_nonleaf,int)", "dict(a=tensor_nonleaf,b=tensor_grad)"):
             out.append(f"{T1}({inner})" if T1 != "dict" else f"dict(k={inner})")
             out.append(f"{T1}({inner},int)" if T1 != "dict" else f"dict(k={inner},j=str)")
     out += ["obj(x=list(int,str),y=inner(c=ndarray0))", "obj(p=inner(c=dict(a=tuple(int,str))))", "obj(x=set(int))", "inner(c=obj(x=obj(y=int)))",
             "list(obj(x=list(obj(y=int))))", "obj(x=tuple(list(),dict(),set()))", "list(list(),list())", "list(tuple(int,int),tuple(int,int))",
-            "list(bool,bool)", "list(int,bool,float)", "tuple(npint,npfloat)", "list(npbool,npbool)", "list(int,none)", "list(bigint,int)"]
+            "list(bool,bool)", "list(int,bool,float)", "tuple(npint,npfloat)", "list(npbool,npbool)", "list(int,none)", "list(bigint,int)",
+            "obj(x=list(tensor_nonleaf),y=tensor_nonleaf)", "inner(c=dict(a=tuple(tensor_nonleaf,str)))", "list(obj(x=tuple(tensor_nonleaf)))"]
+    out += G_DOTNAMES
     # wide containers (>= 11 elements: two-digit keys)
     out += ["wide:list:int:11", "wide:list:str:12", "wide:tuple:float:11", "wide:tuple:str:13", "wide:dict:int:12", "wide:dict:ndarray1:11", "wide:list:ndarray1:11",
             "wide:list:none:11", "wide:list:path:11", "wide:tuple:tensor:11"]
@@ -2029,6 +2040,9 @@ def run_grammar_bounded(tier, seed):
                                                   for i, st in enumerate(("zip", "dir")) for j, c in enumerate((None, 0, 4, 9))]
     for cfg in sweep:
         tasks.append((mixed, cfg, False))
+    # names starting with / containing '.', under both stores
+    for cfg in CONFIGS_QUICK:
+        tasks.append((tuple(G_DOTNAMES), cfg, False))
     # fixed point: save(load(save(x))) reloads to the same graph
     for b in batches[:: (4 if tier == "quick" else 1)]:
         tasks.append((tuple(d for d in b if d not in G_KNOWN_BAD_SAVE), dict(store="zip", compression=4, pathtype="str", mode="w"), True))
@@ -2062,7 +2076,7 @@ def rt_values_replay(inp):
 
 B_GRAMMAR = Bounded("round trip over the value grammar (real save/load)", run_grammar_bounded,
                     "all kinds at depth 0; containers of width <=3 at depth <=2 over 9 child classes; containers of 11-13 elements; every numpy dtype x 0-d/empty/non-empty shapes; "
-                    "both stores x compression None/0/4/9 (x str/Path x w/o: full product in thorough, alternating in quick) on a mixed batch, 4 configurations rotating over the other batches; fixed point on every 4th batch (thorough: all)")
+                    "non-leaf requires_grad tensors at depth 0-2; dict keys / attribute names starting with or containing '.' under both stores; both stores x compression None/0/4/9 (x str/Path x w/o: full product in thorough, alternating in quick) on a mixed batch, 4 configurations rotating over the other batches; fixed point on every 4th batch (thorough: all)")
 B_GRAMMAR.rt = rt_values_replay
 B_SKIP = Bounded("skip lists over a 3-level fixture (real save/load)", run_skip_bounded,
                  "all subsets of <=2 (thorough: <=4) of 7 names (one absent) at save / load / split / both, both stores; 6 type lists; load-time vs save-time comparison")
